@@ -409,7 +409,7 @@ class Element(ABC):
             substitute=substitute,
             identifier=identifier,
             values=values,
-        ).subs(substitutions)
+        ).subs(substitutions, simultaneous=True)
 
     def to_latex(self) -> str:
         """
